@@ -305,8 +305,11 @@ def congruence_comparer(comparer_params_eval, student_eval, utils):
     expected, modulus = comparer_params_eval
 
     expected_reduced = expected % modulus
-    input_reduced = student_eval % modulus
-    return utils.within_tolerance(expected_reduced, input_reduced)
+    # Compare along the circle, so that values just either side of a multiple
+    # of the modulus are treated alike
+    difference = (student_eval - expected) % modulus
+    difference = min(difference, abs(modulus) - difference)
+    return utils.within_tolerance(expected_reduced, expected_reduced + difference)
 
 def eigenvector_comparer(comparer_params_eval, student_eval, utils):
     """
